@@ -44,7 +44,7 @@ TRUSTED = [
     "C13: 'outward' is the local statement n . (dX/dxi N) > 0 with N the outward normal of the closed reference cell at the face point (the cell map preserves orientation on valid cells, so -dX/dxi N points into the body); on affine cells additionally (x_q - centroid) . n > 0",
     "C13: closure and flux of a closed surface made of several cells follow from the per-face integrals; the pair contracts instantiate this for two cells (every admissible gluing), larger meshes follow by induction on the number of cells (paper lemma: a shared face contributes opposite area vectors at equal positions, proved for every gluing)",
     "C13: derived sign facts (proved, then assumed): a . b == d > 0 entails a . a > 0 (a vector with a non-zero inner product is non-zero)",
-    "C13 mask: numpy contracts assumed for the symbolic-membership run: np.arange(n)[mask] is the increasing list of the i with mask[i]; np.isin(a, s) is element-wise membership of a in s; np.all(b, axis=1) is the row-wise conjunction; a[boolean vector] keeps the rows flagged True in order (the first three are replaced by stand-ins, differentially tested against numpy on concrete masks in every run)",
+    "C13 mask: numpy contracts assumed for the symbolic-membership run: np.arange(n)[mask] is the increasing list of the i with mask[i]; np.isin(a, s) is element-wise membership of a in s; np.all / np.any(b, axis=1) is the row-wise conjunction / disjunction; a[boolean vector] keeps the rows flagged True in order (the first three are replaced by stand-ins, differentially tested against numpy on concrete masks in every run)",
 ]
 
 E = fem.element
@@ -256,6 +256,10 @@ def build(vk, ct, mode, cells=None, pos=None, reps=None, volume=False, witness=T
             with symnp.native():
                 vq = np.asarray(_default_quadrature(vcls).points, dtype=float)
             require_valid_cell(vk, el, X[cl], vq)
+    if vk.sym:
+        # every sign fact of these contracts is an instance of the schema (decided syntactically) or a derived
+        # fact that is proved first; anything else must come out undecided, quickly: no solver search
+        oracle.NO_SOLVER = True
     if vk.sym and witness:
         oracle.WITNESS = {ring._vars[nm]: Fraction(cen) for nm, (cen, sp) in vk.samplers.items()}
     c.kw = kw
@@ -450,6 +454,15 @@ def cell_contract(vk, cfg):
                 vk.ensures_true("mesh_faces", np.array_equal(np.asarray(m.cells), cf) and m.cell_type == {"quad": "line", "hexahedron": "quad", "quad8": "line3", "quad9": "line3"}[ct] and same_pts, f"{m.cell_type} {m.cells.shape} points-identical={same_pts}")
             else:
                 vk.note("RegionBoundary.mesh_faces has no face type for hexahedron20 / hexahedron27 (KeyError); not a C13 clause")
+            # only_surface=True (the templates' default) on a single cell: the same boundary cells, re-ordered
+            rs = construct(vk, c, only_surface=True)
+            perm = [[b2 for b2 in range(nb) if list(r.mesh.cells[b2]) == list(rs.mesh.cells[b])] for b in range(len(rs.mesh.cells))]
+            okp = len(rs.mesh.cells) == nb and all(len(x) == 1 for x in perm) and sorted(x[0] for x in perm) == list(range(nb))
+            vk.ensures_true("only_surface=True/same-boundary-cells-reordered", okp and all(list(rs.mesh.cells_faces[b]) == list(cf[perm[b][0]]) for b in range(nb)), str(perm))
+            if okp:
+                pi = [x[0] for x in perm]
+                vk.ensures_eq("only_surface=True/dA", rs.dA, r.dA[:, :, pi])
+                vk.ensures_eq("only_surface=True/normals", rs.normals, r.normals[:, :, pi])
             vk.canary_bool("cells_faces-of-face-0-are-nodes-of-face-1", frozenset(int(x) for x in cf[0]) != c.faces.get(fd[1]["ks"][0] if fd[1]["ks"] else None))
         xq = positions(vk, c, r)
         xs = np.empty((dim, nq, nb), dtype=obj)
@@ -672,6 +685,24 @@ def pair_topology(P, k, s, Q):
     return cells, np.array(pos, dtype=float), shared, fB[0]
 
 
+def pair_representatives(P, cells, shared):
+    """displaced nodes of the quick-tier pair: one node of every class on the shared face, and in each cell
+    one node of every class off the shared face"""
+    cls = node_classes(P)
+    reps = []
+    for p in range(2):
+        seen_on, seen_off = set(), set()
+        for a, g in enumerate(cells[p]):
+            g = int(g)
+            if g in shared and p == 0 and cls[a] not in seen_on:
+                seen_on.add(cls[a])
+                reps.append(g)
+            if g not in shared and cls[a] not in seen_off and cls[a] < P.shape[1]:
+                seen_off.add(cls[a])
+                reps.append(g)
+    return sorted(set(reps))
+
+
 def all_pairings(dim):
     return [(k, s, qi) for k in range(dim) for s in (-1, 1) for qi in range(len(proper_symmetries(dim)))]
 
@@ -761,7 +792,7 @@ def pairs_topology(vk, cfg):
 
 def _pair_configs():
     out = []
-    for ct in CELLS:
+    for ct in sorted(CELLS, key=lambda t: (not t.startswith("hexa"), t)):
         dim = 2 if ct.startswith("quad") else 3
         nq_ = len(proper_symmetries(dim))
         mode = "classes" if ct in HI3 else "generic"
@@ -786,7 +817,7 @@ def pairs(vk, cfg):
     P = ref_points(el_cls())
     n, dim = P.shape
     cells, pos, shared, fB = pair_topology(P, k, s, proper_symmetries(dim)[qi])
-    reps = sorted(set(representative_nodes(P)) | {int(cells[1][a]) for a in representative_nodes(P)})
+    reps = pair_representatives(P, cells, shared)
     flux_clause = ct not in HI3 or vk.tier == "thorough"
     c = build(vk, ct, mode, cells=cells, pos=pos, reps=reps, volume=flux_clause, only_surface=True)
     r = c.region
@@ -895,13 +926,19 @@ class MaskRun:
         return out
 
     def all(s, x, axis=None, **k):
+        return s._reduce(x, axis, np.all, "And", **k)
+
+    def any(s, x, axis=None, **k):
+        return s._reduce(x, axis, np.any, "Or", **k)
+
+    def _reduce(s, x, axis, real, op, **k):
         import z3
 
         if not (isinstance(x, np.ndarray) and x.dtype == object):
-            return np.all(x, axis=axis, **k)
+            return real(x, axis=axis, **k)
         if axis != 1 or x.ndim != 2 or s.conds is not None:
-            raise oracle.Undecided("unexpected use of np.all on symbolic membership")
-        s.conds = [z3.And(*row) if len(row) != 1 else row[0] for row in x]
+            raise oracle.Undecided("unexpected reduction of symbolic membership")
+        s.conds = [getattr(z3, op)(*row) if len(row) != 1 else row[0] for row in x]
         if s.script is None:
             raise _NeedScript(len(s.conds))
         if len(s.script) != len(s.conds):
@@ -917,7 +954,7 @@ def masked_region(bcls, mesh, mask, script, **kw):
     """run the real constructor with the stand-ins bound; returns (region or None, recorded conditions)"""
     run = MaskRun(script)
     old = B_.np
-    B_.np = symnp.NPProxy({**symnp._OVERRIDES, "arange": run.arange, "isin": run.isin, "all": run.all})
+    B_.np = symnp.NPProxy({**symnp._OVERRIDES, "arange": run.arange, "isin": run.isin, "all": run.all, "any": run.any})
     try:
         with symnp.native():
             try:
